@@ -39,6 +39,7 @@ import (
 	"time"
 
 	"github.com/google/inverting-proxy/agent/utils"
+	"github.com/google/inverting-proxy/verifhook"
 )
 
 var (
@@ -213,6 +214,7 @@ func (p *proxy) ServeHTTP(w http.ResponseWriter, r *http.Request) {
 		return
 	}
 	id := p.newID()
+	verifhook.At("server.id.new")
 	log.Printf("Received new frontend request %q", id)
 	// Filter out hop-by-hop headers from the request
 	for name := range r.Header {
